@@ -383,6 +383,7 @@ func (l c20) Exec(env *core.Env) *core.Result {
 					prevAnswer, _ = answers(name)
 				}
 				_, newMeta, err := mgr.Install(ctx, plugin.CLIInstallOptions{PluginPath: path, Overwrite: overwrite})
+				rt.Yield("returned") // a process that crashed meanwhile (a goroutine of its own met the crash) reports nothing
 				faulted := user.FaultsSeen != faultsBefore
 				after := snapshot(root)
 				verdict := "accepted"
@@ -491,6 +492,7 @@ func (l c20) Exec(env *core.Env) *core.Result {
 				model[name] = &c20Plugin{files: want, version: version}
 			case "uninstall":
 				err := mgr.Uninstall(ctx, name)
+				rt.Yield("returned") // a process that crashed meanwhile (a goroutine of its own met the crash) reports nothing
 				faulted := user.FaultsSeen != faultsBefore
 				sim.Abstract(fmt.Sprint("uninstall|", name, "|", err == nil))
 				if unknown[name] || faulted {
